@@ -301,7 +301,7 @@ def run(ctx):
         _lexer_tiling(fx, ln[0], r6)
 
     # ------------------------------------------------------------------ R7
-    r7 = ctx.rule('C12.R7', 'trivia transparency: the token-stream look-ahead skips a trivia token unconditionally (no exit, no call, no state other than the cursor depends on it)', floor=5, floor_what='trivia tests in parser::source')
+    r7 = ctx.rule('C12.R7', 'trivia transparency: the token-stream look-ahead skips a trivia token unconditionally (no exit, no call, no state other than the cursor depends on it)', floor=3, floor_what='trivia tests in parser::source')
     for k in sorted(fx.fns):
         if not re.search(r'trust_syntax::parser::source::Source::<.*>::\w+$', k):
             continue
